@@ -119,7 +119,9 @@ func renderVal(v *Val) string {
 		for i := range v.Fs {
 			f := &v.Fs[i]
 			sb.WriteString(" ")
-			if f.Nm.Ext {
+			if f.Nm.Ext && strings.Contains(f.Nm.N, "/") {
+				sb.WriteString("[" + f.Nm.N + "]") // type reference of an expanded Any
+			} else if f.Nm.Ext {
 				sb.WriteString("[p." + f.Nm.N + "]")
 			} else {
 				sb.WriteString(f.Nm.N)
@@ -163,7 +165,7 @@ func renderStmt(s *Stmt) string {
 // carries the statements (and, in strip mode, a sibling element of the same kind).
 func render(c *Case) string {
 	var sb strings.Builder
-	sb.WriteString("syntax = \"proto2\";\npackage p;\nimport \"google/protobuf/descriptor.proto\";\n")
+	sb.WriteString("syntax = \"proto2\";\npackage p;\nimport \"google/protobuf/descriptor.proto\";\nimport \"google/protobuf/any.proto\";\n")
 	stmts := make([]string, len(c.Stmts))
 	for i := range c.Stmts {
 		stmts[i] = renderStmt(&c.Stmts[i])
@@ -191,7 +193,7 @@ func render(c *Case) string {
 	}
 	fmt.Fprintf(&sb, "  optional Sub sub = 20%s;\n  repeated int32 ri = 21;\n  repeated string rs = 22;\n", c.fieldOpts("Opt.sub"))
 	fmt.Fprintf(&sb, "  repeated Sub rm = 23%s;\n  map<string, int32> mp = 24;\n", c.fieldOpts("Opt.rm"))
-	fmt.Fprintf(&sb, "  optional group Grp = 25%s { optional int32 g = 1; }\n  extensions 100 to 199;\n}\n", c.fieldOpts("Opt.grp"))
+	fmt.Fprintf(&sb, "  optional group Grp = 25%s { optional int32 g = 1; }\n  optional google.protobuf.Any any = 26;\n  extensions 100 to 199;\n}\n", c.fieldOpts("Opt.grp"))
 	fmt.Fprintf(&sb, "extend Opt { optional int32 oext = 100%s; optional Sub osub = 101; }\n", c.fieldOpts("oext"))
 	fmt.Fprintf(&sb, "extend google.protobuf.%s {\n", optionsMsgOf[c.Kind])
 	for i, t := range valueTypes {
